@@ -48,14 +48,16 @@ namespace Pistache::Tcp
         template <typename Buf>
         Async::Promise<ssize_t> asyncWrite(Fd fd, const Buf& buffer, int flags = 0)
         {
-            // Always enqueue reponses for sending. Giving preference to consumer
-            // context means chunked responses could be sent out of order.
-            return Async::Promise<ssize_t>(
-                [=](Async::Deferred<ssize_t> deferred) mutable {
-                    BufferHolder holder { buffer };
-                    WriteEntry write(std::move(deferred), std::move(holder), fd, flags);
-                    writesQueue.push(std::move(write));
-                });
+            return asyncWriteTo(fd, AnyPeer, buffer, flags);
+        }
+
+        // A write for one particular connection: by the time it is taken from the queue that
+        // connection may be gone and its descriptor number belong to another one, which must
+        // not receive it.
+        template <typename Buf>
+        Async::Promise<ssize_t> asyncWrite(const Peer& peer, const Buf& buffer, int flags = 0)
+        {
+            return asyncWriteTo(peer.fd(), peer.getID(), buffer, flags);
         }
 
         Async::Promise<rusage> load()
@@ -81,6 +83,22 @@ namespace Pistache::Tcp
         void flush();
 
     private:
+        static constexpr size_t AnyPeer = static_cast<size_t>(-1);
+
+        template <typename Buf>
+        Async::Promise<ssize_t> asyncWriteTo(Fd fd, size_t peerId, const Buf& buffer, int flags)
+        {
+            // Always enqueue reponses for sending. Giving preference to consumer
+            // context means chunked responses could be sent out of order.
+            return Async::Promise<ssize_t>(
+                [=](Async::Deferred<ssize_t> deferred) mutable {
+                    BufferHolder holder { buffer };
+                    WriteEntry write(std::move(deferred), std::move(holder), fd, flags);
+                    write.peerId = peerId;
+                    writesQueue.push(std::move(write));
+                });
+        }
+
         enum WriteStatus { FirstTry,
                            Retry };
 
@@ -166,6 +184,7 @@ namespace Pistache::Tcp
             BufferHolder buffer;
             int flags = 0;
             Fd peerFd = -1;
+            size_t peerId = static_cast<size_t>(-1);
         };
 
         struct TimerEntry
